@@ -80,7 +80,7 @@ impl Spec {
     }
 
     /// one builder, two build() calls: the calls of `self`, build, then `extra`, build again
-    pub fn build_twice(&self, extra: &[Call]) -> Result<(Result<Automaton, Error>, Result<Automaton, Error>), String> {
+    pub fn build_twice(&self, extra: &[Call], first_unchecked: bool) -> Result<(Result<Automaton, Error>, Result<Automaton, Error>), String> {
         catch(|| {
             let mut b: AutomatonBuilder<u32> = AutomatonBuilder::new(&self.init);
             let apply = |b: &mut AutomatonBuilder<u32>, c: &Call| match c {
@@ -97,7 +97,8 @@ impl Spec {
             for c in &self.calls {
                 apply(&mut b, c);
             }
-            let first = b.build();
+            // build_unchecked is only legitimate on a valid specification (the caller guarantees that)
+            let first = if first_unchecked { Ok(b.build_unchecked()) } else { b.build() };
             for c in extra {
                 apply(&mut b, c);
             }
